@@ -42,6 +42,14 @@ CHECKS["C03"] = dict(
     ref="DESIGN.md §5 C03",
 )
 
+CHECKS["C09"] = dict(
+    level="exploration",
+    text="Two executions compared: the real XmlParser (both handlers) on a serializer-produced document and on a seeded composition of meaning-preserving rewrites of it written by a harness-side XML writer (prefixes/default namespace/shadowing, attribute order, whitespace in element-only content, comments/PIs, CDATA/character references, padded non-string leaves, 7 encodings, XInclude). The rewriter proves infoset preservation with libxml2 before the case counts. Held on the executions produced.",
+    note="Trusted: vf/rewrite.py + its libxml2-based equivalence proof (failed proofs are dropped, >2% makes the run inconclusive), vf/ir.py Ref for typing leaves. One open known finding (native handler + XInclude loses namespace declarations) is classified by mechanism.",
+    technique="runtime monitoring: differential oracle parse(doc) vs parse(rewrite(doc)) with a self-checking meaning-preserving rewriter",
+    ref="DESIGN.md §5 C09",
+)
+
 FIX_COMMITS = []  # guarded hook commits in /repo (none: all hooks are installed from the harness side)
 
 
